@@ -183,3 +183,146 @@ func (t *reTrans) tr(re *syntax.Regexp) (string, error) {
 	}
 	return "", fmt.Errorf("regex operator %v not supported", re.Op)
 }
+
+// ---------------------------------------------------------------- capture groups
+
+// RegexCaptures builds, for a pattern with named groups and a string term x, a constraint that
+// holds for SOME decomposition of x along the pattern's structure, binding every named group to a
+// string term ("" for groups in branches not taken). It is a sound over-approximation of
+// FindStringSubmatch on a full match (A9: never uniqueness, never leftmost-first preference).
+// The pattern must be anchored with \A ... \z at the top (as MustCompileAz produces).
+type capBuilder struct {
+	fresh func(prefix string) string
+	caps  map[string]string
+	order []string
+}
+
+func RegexCaptures(pattern string, x string, fresh func(prefix string) string) (string, map[string]string, []string, error) {
+	re, err := syntax.Parse(pattern, syntax.Perl)
+	if err != nil {
+		return "", nil, nil, err
+	}
+	subs := []*syntax.Regexp{re}
+	if re.Op == syntax.OpConcat {
+		subs = re.Sub
+	}
+	if len(subs) < 2 || subs[0].Op != syntax.OpBeginText || subs[len(subs)-1].Op != syntax.OpEndText {
+		return "", nil, nil, fmt.Errorf("pattern is not anchored with \\A...\\z")
+	}
+	body := &syntax.Regexp{Op: syntax.OpConcat, Sub: subs[1 : len(subs)-1]}
+	if len(body.Sub) == 1 {
+		body = body.Sub[0]
+	}
+	cb := &capBuilder{fresh: fresh, caps: map[string]string{}}
+	// declare a variable for every named group up front
+	var collect func(r *syntax.Regexp)
+	collect = func(r *syntax.Regexp) {
+		if r.Op == syntax.OpCapture && r.Name != "" {
+			if _, dup := cb.caps[r.Name]; !dup {
+				cb.caps[r.Name] = fresh("cap_" + r.Name)
+				cb.order = append(cb.order, r.Name)
+			}
+		}
+		for _, s := range r.Sub {
+			collect(s)
+		}
+	}
+	collect(body)
+	c, err := cb.dec(body, x)
+	if err != nil {
+		return "", nil, nil, err
+	}
+	return c, cb.caps, cb.order, nil
+}
+
+func hasNamedCapture(r *syntax.Regexp) bool {
+	if r.Op == syntax.OpCapture && r.Name != "" {
+		return true
+	}
+	for _, s := range r.Sub {
+		if hasNamedCapture(s) {
+			return true
+		}
+	}
+	return false
+}
+
+func namedIn(r *syntax.Regexp, acc *[]string) {
+	if r.Op == syntax.OpCapture && r.Name != "" {
+		*acc = append(*acc, r.Name)
+	}
+	for _, s := range r.Sub {
+		namedIn(s, acc)
+	}
+}
+
+func (cb *capBuilder) emptyCaps(r *syntax.Regexp) string {
+	var names []string
+	namedIn(r, &names)
+	var cs []string
+	for _, n := range names {
+		cs = append(cs, fmt.Sprintf("(= %s \"\")", cb.caps[n]))
+	}
+	return and(cs...)
+}
+
+func (cb *capBuilder) dec(r *syntax.Regexp, x string) (string, error) {
+	if !hasNamedCapture(r) {
+		t := &reTrans{}
+		l, err := t.tr(r.Simplify())
+		if err != nil {
+			return "", err
+		}
+		return fmt.Sprintf("(str.in_re %s %s)", x, l), nil
+	}
+	switch r.Op {
+	case syntax.OpCapture:
+		inner, err := cb.dec(r.Sub[0], x)
+		if err != nil {
+			return "", err
+		}
+		if r.Name != "" {
+			return and(fmt.Sprintf("(= %s %s)", cb.caps[r.Name], x), inner), nil
+		}
+		return inner, nil
+	case syntax.OpConcat:
+		var parts, cs []string
+		for _, s := range r.Sub {
+			p := cb.fresh("seg")
+			parts = append(parts, p)
+			c, err := cb.dec(s, p)
+			if err != nil {
+				return "", err
+			}
+			cs = append(cs, c)
+		}
+		eqn := fmt.Sprintf("(= %s (str.++ %s))", x, strings.Join(parts, " "))
+		if len(parts) == 1 {
+			eqn = fmt.Sprintf("(= %s %s)", x, parts[0])
+		}
+		return and(append([]string{eqn}, cs...)...), nil
+	case syntax.OpAlternate:
+		var alts []string
+		for i, s := range r.Sub {
+			c, err := cb.dec(s, x)
+			if err != nil {
+				return "", err
+			}
+			var others []string
+			for j, o := range r.Sub {
+				if j != i {
+					others = append(others, cb.emptyCaps(o))
+				}
+			}
+			alts = append(alts, and(append([]string{c}, others...)...))
+		}
+		return or(alts...), nil
+	case syntax.OpQuest:
+		c, err := cb.dec(r.Sub[0], x)
+		if err != nil {
+			return "", err
+		}
+		return or(and(fmt.Sprintf("(= %s \"\")", x), cb.emptyCaps(r.Sub[0])), c), nil
+	}
+	return "", fmt.Errorf("named capture group under %v is not supported", r.Op)
+}
